@@ -370,7 +370,8 @@ class PropertyRun:
         allow = json.load(open(allow_p)) if os.path.exists(allow_p) else {}
         extra = sorted(self.trusted - set(allow.get(self.pid, [])))
         if os.environ.get('VX_UPDATE_TRUSTED'):
-            allow[self.pid] = sorted(self.trusted)
+            # union, so that refreshing under the quick tier does not drop what only the thorough tier uses
+            allow[self.pid] = sorted(set(allow.get(self.pid, [])) | self.trusted)
             json.dump(allow, open(allow_p, 'w'), indent=1, sort_keys=True)
             extra = []
         if extra:
